@@ -352,6 +352,51 @@ def run(ctx: Ctx) -> int:
         construct="decisions after reclassification",
     )
 
+    # ---------------- C15.g ----------------------------------------------------
+    # A parse-time link whose target is a source of another link (or the other way round) would be computed from a
+    # value that is overwritten afterwards.  The creation check refuses such links - provided its tables hold EVERY
+    # existing target and EVERY source of every existing parse-time link, and every new source is looked up.
+    iic = ctx.func("_link_arguments:ActionLink._initial_input_checks")
+    tables = {}
+    for s_ in walk_local(iic):
+        if isinstance(s_, ast.Assign) and len(s_.targets) == 1 and isinstance(s_.targets[0], ast.Name) and isinstance(s_.value, (ast.SetComp, ast.ListComp, ast.GeneratorExp)):
+            tables[s_.targets[0].id] = s_
+    refusals = []
+    for n_ in walk_local(iic):
+        if isinstance(n_, ast.If) and isinstance(n_.test, ast.Compare) and len(n_.test.ops) == 1 and isinstance(n_.test.ops[0], ast.In) and isinstance(n_.test.comparators[0], ast.Name) and n_.test.comparators[0].id in tables and any(isinstance(x, ast.Raise) for x in n_.body):
+            refusals.append((n_, tables[n_.test.comparators[0].id]))
+    ctx.floor("C15.g-refusals", len(refusals), 3)
+    src_tables = tgt_tables = 0
+    for ifn, tab in refusals:
+        comp = tab.value
+        txt_iters = [ast.unparse(g_.iter) for g_ in comp.generators]
+        over_links = bool(comp.generators) and isinstance(comp.generators[0].iter, ast.Name)
+        elt_names = {x.id for x in ast.walk(comp.elt) if isinstance(x, ast.Name)}
+        mentions_source = ".source" in ast.unparse(comp)
+        if mentions_source:
+            src_tables += 1
+            lv = comp.generators[0].target.id if isinstance(comp.generators[0].target, ast.Name) else ""
+            inner = [g_ for g_ in comp.generators[1:] if ast.unparse(g_.iter) == f"{lv}.source" and isinstance(g_.target, ast.Name)]
+            ok = over_links and len(inner) == 1 and elt_names == {inner[0].target.id} and ".source" not in ast.unparse(comp.elt)
+            ctx.oblige("C15.g", ok, tab, "the table of existing sources holds every source of every parse-time link (one generator over the links, one over each link's `source` list)" if ok else "the table of existing sources is not built from every element of every link's `source` list: a link whose target is the second source of a multi-source link is accepted, and that link then computes its target from the value before it is overwritten", fn=iic)
+            conds = [ast.unparse(c_) for g_ in comp.generators for c_ in g_.ifs]
+            okc = all("apply_on" in c_ for c_ in conds)
+            ctx.oblige("C15.g", okc, tab, "only the apply_on test filters that table" if okc else f"existing sources are filtered by {conds}", fn=iic, construct="source table filter")
+        else:
+            tgt_tables += 1
+            ok = over_links and len(comp.generators) == 1 and not comp.generators[0].ifs
+            ctx.oblige("C15.g", ok, tab, "the table of existing targets holds the target of every link" if ok else "the table of existing targets is filtered or not built from all link actions", fn=iic)
+    ctx.oblige("C15.g", src_tables >= 1 and tgt_tables >= 2, iic, "a new link is refused when its target is an existing target or source, and when one of its sources is an existing target", fn=iic, construct="three refusals")
+    # every new source is looked up
+    loops_ = [n_ for n_ in walk_local(iic) if isinstance(n_, ast.For) and any(ifn is x for ifn, _ in refusals for x in ast.walk(n_))]
+    ok = len(loops_) == 1
+    if ok:
+        it = loops_[0].iter
+        par_src = iic.args.args[1].arg
+        ok = (isinstance(it, ast.IfExp) and ast.unparse(it.orelse if "isinstance" in ast.unparse(it.test) and not ast.unparse(it.test).startswith("not ") else it.body) == par_src) or ast.unparse(it) == par_src
+        ok = ok and not any(isinstance(x, (ast.Break, ast.Continue)) for x in ast.walk(loops_[0]))
+    ctx.oblige("C15.g", ok, loops_[0] if loops_ else iic, "each of the new link's sources is checked against the existing targets" if ok else "not every source of the new link is checked against the existing targets", fn=iic)
+
     return ctx.finish(
         explanation=(
             "Dominance / must-pass-through queries on the CFGs of _parse_common, ActionLink.__init__/__call__/set_target_value/apply_parsing_links, dump and save: "
